@@ -18,7 +18,10 @@ for d in sorted(glob.glob(os.path.join(ROOT, "seeded", "*"))):
     det = c.get("check_detected")
     inp = c.get("check_detected_with_failing_input")
     other = c.get("detected_by_other_checks") or m.get("detected_by_other_checks") or ""
-    if det and inp:
+    sc = c.get("strengthening_check")
+    if det and inp and sc:
+        res = "VIOLATION with failing input by ./check %s (this property's own check does not see the change: it lives in %s's domain)" % (sc, sc)
+    elif det and inp:
         res = "VIOLATION with failing input"
     elif det:
         res = "VIOLATION no-failing-input-found"
